@@ -64,11 +64,23 @@ def exhaustive_plans(menu, ents, nops, frames=(1, 2, 5)):
     else:
         for p in itertools.product(single, repeat=nops):
             if all(p[i][0] <= p[i + 1][0] for i in range(nops - 1)):
-                yield list(p)
+                # at most one op through Commands per frame (see random_plan)
+                upd = [x[0] for x in p if x[1] == 'update']
+                if len(upd) == len(set(upd)):
+                    yield list(p)
 
 def random_plan(rng, menu, ents, L, n):
     al = ops_alphabet(menu, ents)
-    return sorted([(rng.randrange(L), rng.choice(['direct', 'direct', 'update']), rng.choice(al)) for _ in range(n)], key=lambda x: x[0])
+    plan = sorted([(rng.randrange(L), rng.choice(['direct', 'direct', 'update']), rng.choice(al)) for _ in range(n)], key=lambda x: x[0])
+    # at most one op issued through Commands per frame: several commands on one entity in one flush (e.g. insert
+    # after despawn) are user errors Bevy itself panics on, and say nothing about the crate
+    seen = set(); out = []
+    for f, m, o in plan:
+        if m == 'update':
+            if f in seen: m = 'direct'
+            seen.add(f)
+        out.append((f, m, o))
+    return out
 
 def pick_menu(rng, n=2):
     """n context types, at least one exclusive and one shared when n >= 2"""
